@@ -379,6 +379,13 @@ func genVarCase(r *rng.R) *varCase {
 		c.Value = "var(" + v + ")"
 		return c
 	}
+	// a fallback that is a whole comma-separated list
+	if ps.sep == "," && len(shape) > 1 && r.P(1, 3) {
+		tag("fallback")
+		tag("fallback-list")
+		c.Value = "var(" + fresh("undef") + ", " + strings.Join(shape, sep) + ")"
+		return c
+	}
 	c.Value, _ = build(0, sep)
 	if !strings.Contains(strings.ToLower(c.Value), "var(") {
 		// make sure there is at least one reference
